@@ -60,14 +60,14 @@ SPEC = dict(
         "ConFIG points where pinv(unit rows) @ pref = 0 in exact arithmetic are reported apart (zero-direction:ConFIG)",
         "because the uniform start makes most small integer matrices tie at once (tie-free: 1 of 729 for 2x3, 145 of 729 for 3x2, 43% of 3x3), "
         "MGDA and CAGrad are additionally run on diag(1, 1.37, 0.61) J for every row-orbit representative J (tie-free: 66% of 3x2, 86% of 3x3)",
-        "tolerances 1e-9 * sigma_max(J) * max(1, |weights|_inf); CAGrad 1e-4 (Clarabel stops at a 1e-8 duality gap, the output "
-        "direction g_w/|g_w| is determined to about its square root; observed worst 4e-6)",
+        "tolerances 1e-9 * sigma_max(J) * max(1, |weights|_inf); CAGrad 3e-4 (Clarabel stops at a 1e-8 duality gap, the output "
+        "direction g_w/|g_w| is determined to about its square root; observed worst 1.7e-5 over the thorough tier of C08)",
     ],
 )
 
 DETERMINISM_SLICE = 8
 TOL = 1e-9
-TOL_BY_AGG = {"CAGrad": 1e-4}
+TOL_BY_AGG = {"CAGrad": 3e-4}
 SLOW = ("MGDA", "CAGrad")
 INC5 = [1.0, 2.0, 3.0, 4.0, 5.0]
 CONSTW = [1.0, -2.0, 0.5, 3.0, -0.25]
